@@ -147,7 +147,9 @@ var runners = []struct {
 	w bool
 }{{"ubuntu-latest", false}, {"windows-latest", true}, {"[self-hosted, Windows]", true}, {"macos-latest", false}, {"[self-hosted, linux]", false}, {"WINDOWS-2022", true}, {"windowsx", false}}
 
-var placeholders = []string{"${{ matrix.os }}", "${{ github.sha }}", "${{secrets.T}}", "${{ format('a}}b', 1) }}", "${{ env.A", "}}", "${{ a }}${{ b }}", "$${{ x }}{", "${{ fromJSON(\n  env.J) }}", "${ {", "${{}}"}
+var placeholders = []string{"${{ matrix.os }}", "${{ github.sha }}", "${{secrets.T}}", "${{ format('a}}b', 1) }}", "${{ env.A", "}}", "${{ a }}${{ b }}", "$${{ x }}{", "${{ fromJSON(\n  env.J) }}", "${ {", "${{}}",
+	// bytes outside ASCII inside a placeholder: the replacement is byte for byte
+	"${{ 'é' }}", "${{ contains(github.event.head_commit.message, '日本語') }}", "é ${{ x }} ü", "${{ '\xff\xfe' }}"}
 
 func strp(s string) *string { return &s }
 
@@ -353,6 +355,12 @@ func readToolLog(path string) []toolRec {
 		}
 		var t toolRec
 		if json.Unmarshal([]byte(l), &t) == nil {
+			// the stand-in tool logs its stdin decoded as latin-1 (one code point per byte): back to bytes
+			bs := make([]byte, 0, len(t.Stdin))
+			for _, r := range t.Stdin {
+				bs = append(bs, byte(r))
+			}
+			t.Stdin = string(bs)
 			recs = append(recs, t)
 		}
 	}
